@@ -29,7 +29,7 @@ PROP = {
         {"pkg": "c16", "test": "TestHARGeneratorPluginBodies", "quick": 8000, "thorough": 60000, "shards": 16},
         {"pkg": "c16", "test": "TestSmallSpaceExhaustive", "kind": "plain"},
         {"pkg": "c16", "test": "TestObfuscateJSONBytes", "thorough": 300000, "shards": 16, "tiers": ["thorough"]},
-        {"pkg": "c16", "test": "FuzzObfuscateJSON", "kind": "plain", "tiers": ["thorough"]},
+        {"pkg": "c16", "test": "FuzzObfuscateJSON", "kind": "fuzz", "thorough": 60, "tiers": ["thorough"]},
         {"pkg": "c16", "test": "TestWitnessSuffixExclusion", "kind": "plain"},
         {"pkg": "c16", "test": "TestWitnessWholeBodyExclusion", "kind": "plain"},
         {"pkg": "c16", "test": "TestWitnessControlCharacterInKey", "kind": "plain"},
